@@ -5,7 +5,7 @@ from props._searchprop import SEARCH_TARGETS, SEARCH_TRUST, run_search_prop, rep
 
 PROP = 'C09'
 LEAN_TARGETS = SEARCH_TARGETS
-THEOREMS = ['MM.Search.' + n for n in ('C09_exhaustive_total', 'C09_greedy_total', 'greedy_fuel_mono', 'C09_greedy_terminates', 'C09_greedy_terminates_partial')]
+THEOREMS = ['MM.Search.' + n for n in ('C09_exhaustive_total', 'C09_greedy_total', 'greedy_fuel_mono', 'C09_greedy_terminates', 'C09_greedy_terminates_partial', 'C09_greedy_terminates_original_false')]
 TRUSTED_BASE = SEARCH_TRUST + ['exceptions born inside pandas/numpy/scipy are not in the model (partial): covered by the exception-class correspondence and the oracle only']
 
 
